@@ -68,7 +68,10 @@ def draw(c, rng):
         inp["w"] = w if inp["hasw"] else np.zeros(0)
     if fam == "zerocol":
         k = rng.integers(len(fs))
-        fs[k][:, rng.integers(fs[k].shape[1])] = 0.0
+        r0 = rng.integers(fs[k].shape[1])
+        fs[k][:, r0] = 0.0
+        if rng.integers(2) == 1:            # half of the zero columns are made of negative zeros
+            inp["negzero"] = [int(k), int(r0)]
     if fam == "zeromean":
         ks = [k for k in range(len(fs)) if k != c["mode"] and fs[k].shape[0] >= 2]
         k = ks[rng.integers(len(ks))]
@@ -119,6 +122,8 @@ def draw(c, rng):
         if c["listin"]:
             inp["other"] = [f[:, rng.permutation(R)].copy() for f in ref]
     inp["fs"] = fs
+    if c.get("mag", 0):
+        inp["mag"] = lf.draw_mag(kind, inp, int(c["mag"]), rng)
     if kind == "slices":
         inp["rs"] = [_ints(rng, sh) for sh in c["rshapes"]]
     if op in ("cp_mode_dot", "tucker_mode_dot"):
@@ -262,19 +267,20 @@ def _execute(c, inp):
                 ft = cp_tensor.CPTensor(ft)
             w, fs = cp_tensor.cp_flip_sign(ft, mode=c["mode"])
             _dense(out, "cp", (w, fs))
-            wm, ok = qi(float(np.min(w)), SUMM_SCALE)
+            # signs only (sums of integers times one power of two are exact; a tiny negative value must not round to 0)
+            wm, ok = qi(float(np.sign(np.min(w))), SUMM_SCALE)
             summ, fin = [], ok
             for f in fs:
                 row = []
                 for r in range(np.shape(f)[1]):
-                    v, ok = qi(float(np.mean(np.asarray(f)[:, r])), SUMM_SCALE)
+                    v, ok = qi(float(np.sign(np.mean(np.asarray(f)[:, r]))), SUMM_SCALE)
                     row.append(v)
                     fin = fin and ok
                 summ.append(row)
             out["wmin"], out["summ"], out["sfin"] = wm, summ, fin
         elif op == "cp_permute_factors":
             ref = (inp["ref"]["w"].copy() if inp["ref"]["hasw"] else None, [f.copy() for f in inp["ref"]["fs"]])
-            T = cp_tensor.CPTensor((inp["w"].copy(), [f.copy() for f in inp["fs"]]))
+            T = cp_tensor.CPTensor(lf.fresh("cp", inp))
             if c["listin"]:
                 other = cp_tensor.CPTensor((np.ones(len(inp["w"])), [f.copy() for f in inp["other"]]))
                 res, perms = cp_tensor.cp_permute_factors(ref, [other, T])
@@ -285,11 +291,12 @@ def _execute(c, inp):
             w, fs = res
             ex = True
             pj = []
+            mg = inp.get("mag", {}).get("e", 0)
             for f in fs:
-                j, e1 = jt_exact(f)
+                j, e1 = jt_exact(np.stack([lf.unscale(np.asarray(f)[:, r], mg) for r in range(np.shape(f)[1])], axis=1) if mg else f)
                 pj.append(j)
                 ex = ex and e1
-            wj, e2 = jt_exact(w)
+            wj, e2 = jt_exact(np.array([lf.unscale(np.asarray(x), mg) for x in np.asarray(w)]) if mg else w)
             out["parts"] = {"hasw": True, "w": wj["data"], "fs": pj}
             out["exact"] = bool(ex and e2)
             out["perm"] = [int(x) for x in np.asarray(perm).ravel()]
@@ -299,8 +306,9 @@ def _execute(c, inp):
                 cores = tt_tensor.TTTensor(cores)
             res = tt_tensor.pad_tt_rank(cores, n_padding=c["npad"], pad_boundaries=c["padb"])
             ex, pj = True, []
+            mg = inp.get("mag", {}).get("e", 0)
             for g in res:
-                j, e1 = jt_exact(g)
+                j, e1 = jt_exact(lf.unscale(g, mg))
                 pj.append(j)
                 ex = ex and e1
             out["parts"] = {"hasw": False, "w": [], "fs": pj}
